@@ -111,7 +111,7 @@ def default_qset(d, numofq):
     return np.array(out)
 
 
-def one_case(ctx, rng, wd):
+def one_case(ctx, rng, wd, force_N=None):
     from PyMatterSim.dynamic.dynamics import Dynamics, LogDynamics
     from PyMatterSim.neighbors.calculate_neighbors import Nnearests
     d = int(rng.choice([2, 3]))
@@ -119,10 +119,15 @@ def one_case(ctx, rng, wd):
     T = int(rng.choice([2, 3, 4, 5, 6, 8, 3, 5, 8, 13, 21]))
     if T > 8:
         N = min(N, 16)
+    if force_N:
+        N, T = force_N, int(rng.choice([3, 5]))          # a trajectory far beyond the usual size (block-wise evaluation boundaries)
+        ctx.count("trajectories_over_1000_particles")
     kind = str(rng.choice(["ballistic", "diffusive", "arrested", "mixed"]))
     L = rng.uniform(4.0, 9.0, size=d)
     if rng.random() < 0.3:
         L[:] = L[0]
+    if force_N:
+        L = L * (force_N / 30.0) ** (1.0 / d)
     XU = gen_traj(rng, d, N, T, L, kind)
     lo = rng.uniform(-2, 2, size=d) if rng.random() < 0.5 else np.zeros(d)
     XU = XU + lo
@@ -150,6 +155,8 @@ def one_case(ctx, rng, wd):
     xu_snaps = gc.snapshots_from([gc.snapshot_from(cell, None, types, int(ts[t]), positions=XU[t], layout=layout) for t in range(T)])
     x_snaps = gc.snapshots_from([gc.snapshot_from(cell, None, types, int(ts[t]), positions=X[t], layout=layout) for t in range(T)])
     nlkind = str(rng.choice(["none", "none", "own", "repo"]))
+    if force_N:
+        nlkind = "none"
     if N < 4:
         nlkind = "none" if nlkind == "repo" else nlkind
     lists = None
@@ -342,6 +349,9 @@ def one_case(ctx, rng, wd):
 def run(ctx):
     from ..harness import fresh_dir, drop_dir
     wd = fresh_dir("c06")
+    if ctx.shard == 0 or ctx.thorough:
+        for _ in range(2):
+            one_case(ctx, ctx.rng(), wd, force_N=int(ctx.rng().choice([1100, 2050, 3000])))
     n = ctx.n(300, 800)
     for _ in range(n):
         one_case(ctx, ctx.rng(), wd)
